@@ -26,6 +26,7 @@ def pool_values():
         f20(2 * ONE + IN), f20(ONE + 2 * OUT), f20(ONE + 500),
         "", "a", "b", "z", "ab", "Ab.", "abc", "a b", " A  b!", "a\nb", "b\na", "a.b", "Hello, World!",
         "hello world", "A", "1", "caat", "a+", "(", "^a.b$", "a\tb", "line one\nLine Two.",
+        "a b ", "a  b", "a\rb", "a\r\nb", "a\x0cb", "a\x1cb", "a\xa0b", "ab ", "\n", " ",
         [], [1, 2], [2, 1], [1, 2, 3], [1, [2.0]], [1, [f20(2 * ONE + IN)]], [1, [f20(2 * ONE + OUT)]],
         ["a", "b"], ["A", "B."], [1, "a"], [{1}], [{2}], [None], [1.0, 2], ["a"], [[1], [2]], [1, "b"],
         (), (1, 2), (1, "a"), (1, 2, 3), ((1, 2),), (1.0, 2), ("a", "b"), (1, [2]),
@@ -68,7 +69,8 @@ class Pool:
 
 # executions for the output assertions: (how, text printed)
 EXECUTIONS = [("say", "Hello, World!"), ("say", "hello world"), ("say", "a\nb"), ("say", "b\na"), ("say", ""),
-              ("say", "Ab."), ("say", "caat"), ("say", "1"), ("quiet", ""), ("sandbox", ""), ("boom", "")]
+              ("say", "Ab."), ("say", "caat"), ("say", "1"), ("say", "a b "), ("say", "a\rb"), ("say", "a\x0cb"),
+              ("quiet", ""), ("sandbox", ""), ("sandbox_failed", ""), ("boom", "")]
 
 
 def make_execution(how, text):
@@ -78,13 +80,17 @@ def make_execution(how, text):
     if how == "quiet":
         return ac.call("say_quiet"), ""
     if how == "sandbox":
-        return ac.get_sandbox(), ""
+        ac.call("say_quiet")            # a successful call: the sandbox is not in an error state
+        return ac.get_sandbox(), ac.get_sandbox().raw_output
+    if how == "sandbox_failed":
+        ac.call("boom")                 # the sandbox now holds the exception of the failed call
+        return ac.get_sandbox(), ac.get_sandbox().raw_output
     return ac.call("boom"), ""
 
 
 def enc_execution(x):
     if isinstance(x, ac.rt.Sandbox):
-        return ["0", str(ac.oid(x)), "0", "O%d" % ac.oid(x)]
+        return ["0", str(ac.oid(x)), "0", ("X%d" if x.exception is not None else "O%d") % ac.oid(x)]
     return ac.enc_operand(x)
 
 
@@ -92,7 +98,7 @@ def enc_str_tok(s):
     return "S" + (",".join(str(ord(c)) for c in s) if s else "-")
 
 
-def request_line(name, a, b, exact=False, delta=None, printed=None):
+def request_line(name, a, b, exact=False, delta=None, printed=None, spelling=None):
     """`a ...` request for one assertion call, or None when an operand is outside the wire universe."""
     d = ac.DEFAULT_DELTA if delta is None else delta
     ra, rb = ac.raw(a), ac.raw(b)
